@@ -47,14 +47,16 @@ def obligations(tier):
         obs.append(Ob("varr." + name, "C19/varr.c", defs=["OP=%d" % op, "H_MAXL=%d" % ml, "H_SLOT_MAX=8"], unwind=ml + 6,
                       checks="memsafe", timeout=600,
                       sample="VARR_%s from an arbitrary state: length 0..%d, capacity length..%d, contents arbitrary" % (name, ml, ml + 2)))
-    nd_ops = 4 if tier == "quick" else 6
+    nd_ops = 4 if tier == "quick" else 5   # 6 ops: no verdict in 40 min
     obs.append(Ob("dlist.seq%d" % nd_ops, "C19/dlist.c", defs=["H_NOPS=%d" % nd_ops, "H_NN=4"], unwind=max(7, nd_ops + 2), checks="memsafe",
                   timeout=2400, sample="DLIST: every sequence of <= %d ops from {prepend,append,insert_before,insert_after,remove} over 4 nodes, "
                   "observed after every op by forward/backward walks, length and DLIST_EL(n) for every n in [-5,5]" % nd_ops))
     if tier == "quick":
         obs.append(htab_ob(3, 3, 900))
     else:
-        obs.append(htab_ob(4, 4, 3000))
+        obs.append(htab_ob(3, 3, 1500))
+        obs.append(htab_ob(4, 3, 3600))   # (4 ops, 4 keys): no verdict in 50 min
+        obs.append(htab_ob(3, 4, 3600))
     return obs
 
 
